@@ -46,6 +46,9 @@ pub fn generate(r: &mut Rng, tier: Tier) -> Scenario {
     let k = if tier == Tier::Quick { 1 } else { 3 };
     let entropy: Vec<u64> = (0..k).map(|_| r.next_u64() >> 11).collect();
     let mut world = world;
+    if r.chance(1, 6) && crate::world::include_twice(&mut world, r) {
+        // (a file included twice: its two copies are one file name with two identities)
+    }
     if r.chance(1, 3) {
         // what a file looks like after somebody rewrote it while the analyzer was running: the
         // printer's re-open (if it re-opens at all) is redirected here (TOCTOU)
